@@ -21,7 +21,7 @@ func runC11(c *hc.Ctx) error {
 	c.Sum.TrustedBase = append(append([]string{}, pipeTrusted...), "the Go race detector and runtime.NumGoroutine accounting (supporting search for the partial clause)")
 	c.Sum.Assumptions = []string{"targets' ids are distinct (keys of a Go map)", "Source and Target obey the channel contract of processing/interface.go (see trusted base)"}
 	m := mode{id: "C11", scheduleHeavy: true, clauses: map[string]bool{"content": true, "order": true, "leak": true}}
-	scs, err := runPipe(c, m, 420, 6000)
+	scs, err := runPipe(c, m, 420, 10000)
 	if err != nil {
 		return err
 	}
@@ -48,7 +48,7 @@ func raceSearch(c *hc.Ctx, m mode, scs []Scenario) {
 		return
 	}
 	buildMs := time.Since(t0).Milliseconds()
-	n := c.N(160, 2500)
+	n := c.N(160, 4000)
 	if n > len(scs) {
 		n = len(scs)
 	}
